@@ -303,8 +303,8 @@ class Subset(Profile):
             why = self.check_data(W, op, res, sub, sm, sf, sn)
             if why:
                 return out, [V(f"{sig}/data[{op['data']['on']}]/{why[0]}", i, f"{how} {self.args_str(op)} on {op['data']['on']}-centred data {tuple(op['data']['lead'])}: {why[1]}")]
-        # ---- derived quantities on the result ----
-        for name in op.get("after") or []:
+        # ---- derived quantities on the result (an empty selection has nothing to derive) ----
+        for name in (op.get("after") or []) if sf else []:
             W.fire("derive_on_result")
             why = self.check_derived(W, sub, sm, sf, sn, name)
             if why:
@@ -400,10 +400,15 @@ class Subset(Profile):
             cv = M.unit(c[0], c[1])
             d = np.degrees(M.gc_dist(xyz, cv[None, :]))
             el = op["element"]
-            center = tuple(float(x) for x in cv) if op.get("cart") else tuple(c)
+            # a Cartesian centre addresses the k-d tree on the grid's Cartesian coordinates: only
+            # meaningful (and only generated) when those lie on the unit sphere
+            spec = W.trace["sources"]["g0"]
+            cart = bool(op.get("cart")) and float((spec.get("dialect") or {}).get("xyz_scale", 1.0)) == 1.0 and spec.get("kind") != "file"
+            op["cart"] = cart
+            center = tuple(float(x) for x in cv) if cart else tuple(c)
             if how == "bcircle":
                 r = op["r"]
-                if op.get("cart"):
+                if cart:
                     # Cartesian centre -> k-d tree -> the radius is a chord length
                     dd = M.chord(xyz, cv[None, :])
                     r = round(2.0 * math.sin(math.radians(op["r"]) / 2.0), 6)
@@ -432,21 +437,35 @@ class Subset(Profile):
             if abs(la) >= 90.0:
                 la = float(op["lat"])
         op["_lat"] = la
-        zc = math.sin(math.radians(la))
+        zc = float(np.sin(np.deg2rad(la)))
         z = np.sin(np.deg2rad(m.lat))
         dz = z - zc
-        exact = m.lat == la  # bit-equal: the node is ON the parallel, not strictly on a side
-        dz = np.where(exact, 0.0, dz)
+        near = np.abs(dz) <= 1e-9
+        # side of each node: +1 / -1 when clear; 0 when the node is ON the parallel (its z is
+        # bit-equal to sin(lat) as the scan itself computes them - decidable only in the JIT-off
+        # configuration, where both sides come from the same numpy routines); None when undecidable
+        side = [None] * m.n_node
+        on_parallel = np.zeros(m.n_node, dtype=bool)
+        if near.any() and not W.jit:
+            zl = np.asarray(g.node_z.values, dtype=np.float64)
+            rad = np.sqrt(np.asarray(g.node_x.values, dtype=np.float64) ** 2 + np.asarray(g.node_y.values, dtype=np.float64) ** 2 + zl**2)
+            if np.all(np.abs(rad - 1.0) <= 1e-8):
+                on_parallel = near & (zl == zc)
+        for nn in range(m.n_node):
+            if not near[nn]:
+                side[nn] = 1 if dz[nn] > 0 else -1
+            elif on_parallel[nn]:
+                side[nn] = 0
         must, may = set(), set()
         for f, nodes in enumerate(m.faces):
             k = len(nodes)
             for j in range(k):
-                a, b = nodes[j], nodes[(j + 1) % k]
-                pa, pb = dz[a], dz[b]
-                if pa * pb < 0 and abs(pa) > 1e-9 and abs(pb) > 1e-9:
+                sa, sb = side[nodes[j]], side[nodes[(j + 1) % k]]
+                if sa is None or sb is None:
+                    if sa != 0 and sb != 0:
+                        may.add(f)
+                elif sa * sb < 0:
                     must.add(f)
-                    may.add(f)
-                elif (abs(pa) <= 1e-9 and not exact[a] and pb != 0) or (abs(pb) <= 1e-9 and not exact[b] and pa != 0):
                     may.add(f)
         if op["how"] == "faces_at_lat":
             return must, may, None, (lambda o, isda: o.get_faces_at_constant_latitude(la))
@@ -491,6 +510,8 @@ class Subset(Profile):
                 return ("n_edge", f"n_edge of the result raised {type(e).__name__}")
         if vals.shape != tuple(lead + [want_n]):
             return ("shape", f"result data shape {vals.shape}, expected {tuple(lead + [want_n])}")
+        if want_n == 0:
+            return None  # an empty selection (already judged as a set) carries no data
         flat = vals.reshape(-1, want_n)
         ids = np.rint(flat[0] - (1e6 if lead else 0.0)).astype(int)
         for li in range(flat.shape[0]):
@@ -526,11 +547,16 @@ class Subset(Profile):
         """None or (kind, why)."""
         from sim import model as M
 
+        tw = self.twin(W)
+        if name in ("bounds", "face_areas", "edge_face_distances", "edge_node_distances"):
+            try:
+                getattr(tw, name)
+            except Exception:
+                return None  # the untouched source cannot compute it either: nothing to agree with
         try:
             val = getattr(sub, name)
         except Exception as e:
             return (f"exception({type(e).__name__})", f"{name} on the result raised {type(e).__name__}: {str(e)[:200]}")
-        tw = self.twin(W)
         INT_FILL = np.iinfo(np.intp).min
         v = np.asarray(val.values if hasattr(val, "values") else val)
 
@@ -558,11 +584,26 @@ class Subset(Profile):
                 out.append(src_pairs[key])
             return out, None
 
-        if name in ("face_lon", "face_lat", "face_x", "face_z", "face_areas", "n_nodes_per_face"):
+        def close_lon(a, b, what):
+            a, b = np.asarray(a, dtype=float), np.asarray(b, dtype=float)
+            if a.shape != b.shape:
+                return ("shape", f"{what}: shape {a.shape} vs source restricted {b.shape}")
+            d = np.abs((a - b + 180.0) % 360.0 - 180.0)
+            if np.any(~np.isfinite(a)) or (d.size and d.max() > 1e-9):
+                return ("mismatch", f"{what} differs (modulo 360) from the source's value restricted to the selection (max {np.nanmax(d):.3g} deg)")
+            if a.size and (a.min() < -180.0 - 1e-12 or a.max() > 180.0 + 1e-12):
+                return ("range", f"{what} outside [-180, 180]: [{a.min()}, {a.max()}]")
+            return None
+
+        if name == "face_lon":
+            return close_lon(v, twin_val(name)[sf], name)
+        if name in ("face_lat", "face_x", "face_z", "face_areas", "n_nodes_per_face"):
             return close(v, twin_val(name)[sf], name)
         if name == "bounds":
             return close(v, twin_val(name)[sf], name, atol=1e-9)
-        if name in ("node_x", "node_z", "node_lon"):
+        if name == "node_lon":
+            return close_lon(v, twin_val(name)[sn], name)
+        if name in ("node_x", "node_z"):
             return close(v, twin_val(name)[sn], name)
         if name in ("edge_lon", "edge_lat", "edge_x", "edge_node_distances", "edge_node_z"):
             em, err = edge_map()
@@ -572,6 +613,8 @@ class Subset(Profile):
             if name == "edge_node_z":
                 # the two columns follow the (arbitrary) node order within the edge
                 return close(np.sort(v, axis=1), np.sort(t, axis=1), name)
+            if name == "edge_lon":
+                return close_lon(v, t, name)
             return close(v, t, name)
         if name == "edge_face_distances":
             return None  # computable is all that is asked (values legitimately differ on a restriction)
@@ -580,6 +623,10 @@ class Subset(Profile):
             return None if int(val) == want else ("mismatch", f"n_edge {int(val)} but the selected faces have {want} boundary segments")
         if name == "antimeridian_face_indices":
             sure, unsure = sm.antimeridian_faces(margin=1e-3)
+            # a node exactly on the antimeridian may be stored as +180 or -180
+            on_am = [f for f, nodes in enumerate(sm.faces) if np.any(np.abs(np.abs(sm.lon[nodes]) - 180.0) < 1e-3)]
+            unsure = sorted(set(unsure) | set(on_am))
+            sure = [f for f in sure if f not in on_am]
             got = set(int(x) for x in np.atleast_1d(v).ravel())
             if not (set(sure) <= got <= set(sure) | set(unsure)):
                 return ("mismatch", f"antimeridian_face_indices {sorted(got)[:8]} vs model {sure[:8]}")
